@@ -158,7 +158,7 @@ impl Scenario for C18 {
             components_stubbed: &["EPMD (stub; Node::start must register first)", "Process handlers (instrumented recorders; the behaviour callbacks are instrumented too)"],
             assumptions: &["link/unlink operations on one pair and monitor/demonitor operations on one (watcher, target) pair are issued by a single driver task, so their order is known; everything else is concurrent", "a process's death is an interval from the failing handler event to the drop of the process object; operations overlapping it may or may not take effect"],
             fault_prefixes: &["fault.", "proc."],
-            expected_probes: &["probe.c18.delivered", "probe.c18.exit_notified", "probe.c18.monitor_notified", "probe.c18.no_notice_after_unlink", "probe.c18.dead_pid_rejected", "probe.c18.name_of_dead_process_free", "probe.c18.name_history_linearizable", "probe.c18.send_name_delivered", "probe.c18.backpressure_burst", "probe.c18.gen_call_replied", "probe.c18.gen_event_notified", "probe.c18.spawned_mid_history", "probe.c18.stale_identifier_used", "probe.c18.notice_after_long_full_mailbox", "probe.c18.monitors_2_pow_k_references_apart", "probe.c18.call_in_the_name_of_a_failed_client"],
+            expected_probes: &["probe.c18.delivered", "probe.c18.exit_notified", "probe.c18.monitor_notified", "probe.c18.no_notice_after_unlink", "probe.c18.dead_pid_rejected", "probe.c18.name_of_dead_process_free", "probe.c18.name_history_linearizable", "probe.c18.send_name_delivered", "probe.c18.backpressure_burst", "probe.c18.gen_call_replied", "probe.c18.gen_event_notified", "probe.c18.spawned_mid_history", "probe.c18.stale_identifier_used", "probe.c18.notice_after_long_full_mailbox", "probe.c18.monitors_2_pow_k_references_apart", "probe.c18.call_in_the_name_of_a_failed_client", "probe.c18.sent_through_the_process_handle"],
         }
     }
 }
